@@ -307,7 +307,7 @@ class FakeSession:
             if self.dead:
                 await self._forever()
             if fault is not None:
-                srv.rec('srv.fault', req=req.id, loop=self.owner, kind=fault.kind, code=fault.code, **req.route)
+                srv.rec('srv.fault', req=req.id, loop=self.owner, fault=fault.kind, code=fault.code, route=req.route.get('kind'), name=req.route.get('name'))
                 if fault.kind == 'conn':
                     raise aiohttp.ClientConnectionError('simulated connection error')
                 if fault.kind == 'timeout':
